@@ -254,3 +254,72 @@ func dataFiles(dir, keyDir string) []stream {
 	})
 	return out
 }
+
+// pathBrowser is a minimal user agent that honours cookie paths (the node scopes the user session cookie to /oauth2/<subject>;
+// both subjects live on one host here) and ignores the Secure flag (it stands for a browser behind a TLS-terminating proxy).
+type pathBrowser struct {
+	cookies []*http.Cookie
+	Hops    []browserHop
+}
+
+type browserHop struct {
+	URL      string
+	Status   int
+	Location string
+	Body     string
+}
+
+func (b *pathBrowser) get(u string) (browserHop, error) {
+	req, err := http.NewRequest("GET", u, nil)
+	if err != nil {
+		return browserHop{}, err
+	}
+	for _, c := range b.cookies {
+		if c.Path == "" || strings.HasPrefix(req.URL.Path, c.Path) {
+			req.AddCookie(&http.Cookie{Name: c.Name, Value: c.Value})
+		}
+	}
+	resp, err := recClient.Do(req)
+	if err != nil {
+		return browserHop{}, err
+	}
+	defer resp.Body.Close()
+	body, _ := io.ReadAll(io.LimitReader(resp.Body, 1<<20))
+	for _, c := range resp.Cookies() {
+		if !strings.HasPrefix(c.Path, "/") {
+			// RFC 6265 5.2.4 / 5.1.4: a Path attribute that does not start with "/" is ignored, the default-path of the request applies
+			c.Path = "/"
+			if i := strings.LastIndexByte(req.URL.Path, '/'); i > 0 {
+				c.Path = req.URL.Path[:i]
+			}
+		}
+		replaced := false
+		for i, old := range b.cookies {
+			if old.Name == c.Name && old.Path == c.Path {
+				b.cookies[i], replaced = c, true
+			}
+		}
+		if !replaced {
+			b.cookies = append(b.cookies, c)
+		}
+	}
+	h := browserHop{URL: u, Status: resp.StatusCode, Location: resp.Header.Get("Location"), Body: string(body)}
+	b.Hops = append(b.Hops, h)
+	return h, nil
+}
+
+// follow GETs u and follows redirects while they stay on prefix.
+func (b *pathBrowser) follow(u, prefix string, max int) (browserHop, error) {
+	var h browserHop
+	var err error
+	for i := 0; i < max; i++ {
+		if h, err = b.get(u); err != nil {
+			return h, err
+		}
+		if h.Status/100 != 3 || h.Location == "" || !strings.HasPrefix(h.Location, prefix) {
+			return h, nil
+		}
+		u = h.Location
+	}
+	return h, fmt.Errorf("too many redirects")
+}
